@@ -239,19 +239,32 @@ pub fn classify(text: &str) -> Value {
     json!({"json_ok": true, "schema_ok": true, "P": P, "A": A, "nq": nq, "nb": nb, "cone_rows": rows, "cone_params_ok": cp_ok, "settings_valid": s_valid})
 }
 
-pub fn load_outcome(text: &str, dir: &str) -> (String, String) {
+pub fn load_outcome(text: &str, dir: &str) -> (String, String) { load_outcome_with(text, dir, None) }
+
+pub fn load_outcome_with(text: &str, dir: &str, ov: Option<DefaultSettings<f64>>) -> (String, String) {
     let path = format!("{}/fault.json", dir);
     std::fs::write(&path, text).unwrap();
     let res = catch_unwind(AssertUnwindSafe(|| {
         let mut f = std::fs::File::open(&path).unwrap();
-        match DefaultSolver::<f64>::load_from_file(&mut f, None) { Ok(_) => ("ok".to_string(), String::new()), Err(e) => ("err".to_string(), e.to_string()) }
+        match DefaultSolver::<f64>::load_from_file(&mut f, ov) { Ok(_) => ("ok".to_string(), String::new()), Err(e) => ("err".to_string(), e.to_string()) }
     }));
     match res { Ok(r) => r, Err(e) => ("panic".to_string(), crate::rec_ipm::panic_msg(e)) }
 }
 
 fn fault_event(id: usize, base: usize, kind: &str, site: String, text: &str, intended: &str, dir: &str) -> Value {
-    let (outcome, msg) = load_outcome(text, dir);
+    fault_event_ov(id, base, kind, site, text, intended, dir, "none")
+}
+
+/// `ov`: "none" | "valid" | "invalid" - a settings argument supplied at load time (replaces the stored settings)
+fn fault_event_ov(id: usize, base: usize, kind: &str, site: String, text: &str, intended: &str, dir: &str, ov: &str) -> Value {
+    let ovs = match ov {
+        "valid" => { let mut s = DefaultSettings::<f64>::default(); s.verbose = false; s.direct_solve_method = "qdldl".into(); Some(s) }
+        "invalid" => { let mut s = DefaultSettings::<f64>::default(); s.verbose = false; s.direct_solve_method = "no_such_solver".into(); Some(s) }
+        _ => None,
+    };
+    let (outcome, msg) = load_outcome_with(text, dir, ovs);
     let mut e = classify(text);
+    e["override"] = json!(ov);
     let o = e.as_object_mut().unwrap();
     o.insert("ev".into(), json!("Fault"));
     o.insert("run".into(), json!(id));
@@ -350,6 +363,16 @@ pub fn fault_events(seed: u64, thorough: bool, dir: &str) -> Vec<Value> {
         sem("invalid direct_solve_method", "Settings", &|x| { x["settings"]["direct_solve_method"] = json!("qdlxl"); });
         sem("invalid merge method", "Settings", &|x| { x["settings"]["chordal_decomposition_merge_method"] = json!("clique_grph"); });
         sem("top level array", "Schema", &|x| { *x = json!([1, 2, 3]); });
+        // settings supplied at load time replace the stored ones: stored settings this build cannot use do not matter
+        // then, and an unusable override is an error (not a panic) even on a perfectly good file
+        {
+            let mut v2 = v.clone();
+            v2["settings"]["direct_solve_method"] = json!("some_other_backend");
+            out.push(fault_event_ov(id, bi, "semantic", "foreign stored solver, valid override".into(), &v2.to_string(), "ok", dir, "valid")); id += 1;
+            out.push(fault_event_ov(id, bi, "semantic", "foreign stored solver, invalid override".into(), &v2.to_string(), "Settings", dir, "invalid")); id += 1;
+            out.push(fault_event_ov(id, bi, "semantic", "good file, invalid override".into(), &text, "Settings", dir, "invalid")); id += 1;
+            out.push(fault_event_ov(id, bi, "semantic", "good file, valid override".into(), &text, "ok", dir, "valid")); id += 1;
+        }
     }
     let _ = std::fs::remove_file(format!("{}/fault.json", dir));
     let _ = std::fs::remove_file(format!("{}/base.json", dir));
@@ -450,6 +473,9 @@ pub fn roundtrip_events(seed: u64, count: usize, dir: &str) -> (Vec<Value>, Vec<
                 if al.len() == 3 && rng.gen::<f64>() < 0.5 { *al = [vec![0.2, 0.7, 0.1], vec![0.3, 0.6, 0.1], vec![0.1, 0.2, 0.7]][rng.gen_range(0..3)].clone(); }
             }
         }
+        // explicitly stored zeros are part of the problem's structure (a later update may fill them)
+        if rng.gen::<f64>() < 0.15 && !p.A.nzval.is_empty() { let k = rng.gen_range(0..p.A.nzval.len()); p.A.nzval[k] = 0.0; }
+        if rng.gen::<f64>() < 0.15 && !p.P.nzval.is_empty() { let k = rng.gen_range(0..p.P.nzval.len()); if p.P.rowval[k] != (0..p.P.n).find(|j| p.P.colptr[*j + 1] > k).unwrap() { p.P.nzval[k] = 0.0; } }
         // extreme finite values and empty matrices now and then
         if rng.gen::<f64>() < 0.1 { p.P = Csc::zeros(p.n(), p.n()); }
         if rng.gen::<f64>() < 0.1 && !p.q.is_empty() { p.q[0] = 1.2345678901234567e300; }
